@@ -79,6 +79,40 @@ def _batch_cases(tier, specs, maxlen=3):
                     yield {"spec": spec.name, "cfg": ci, "train": ti, "batch": list(p), "tier": tier}
 
 
+def run_large_batch(case):
+    """batches longer than the internal chunk sizes (LOT kernels work in chunks of max(256, block_size // 64) rows):
+    pool items cycled to `size` rows; every row must equal its single-item row"""
+    spec = E.BY_NAME[case["spec"]]
+    try:
+        est, cfg, pool, singles = fitted(spec, case["cfg"], case["train"], case["tier"])
+    except Exception as e:
+        return res([viol("fit-exception:%s:%s" % (spec.name, type(e).__name__), "raised %r" % (e,))], out="exc")
+    n = case["size"]
+    idx = [(i * 7 + i // len(pool)) % len(pool) for i in range(n)]
+    items = [pool[i] for i in idx]
+    try:
+        rows = spec.rows(E.transform(spec, est, items, cfg), n)
+    except Exception as e:
+        return res([viol("batch-exception:%s:%s" % (spec.name, type(e).__name__), "transform of a %d-item batch raised %r" % (n, e))], out="exc", tr=1)
+    v = []
+    if len(rows) != n:
+        v.append(viol("row-count:%s" % spec.name, "%d rows for %d items" % (len(rows), n)))
+    else:
+        bad = [k for k, (i, r) in enumerate(zip(idx, rows)) if not spec.same(r, singles[i])]
+        if bad:
+            v.append(viol("row-depends-on-batch-position:%s" % spec.name, "in a batch of %d items, rows %s (of %d wrong) differ from the single-item rows (cfg %s)" % (n, bad[:6], len(bad), cfg)))
+    return res(v, nt=(case["spec"], case["cfg"], n), out=spec.name, st=1, tr=1)
+
+
+def _large_cases(tier):
+    sizes = (255, 256, 257, 300, 513) if tier == "quick" else (255, 256, 257, 300, 511, 512, 513, 1025)
+    for spec in E.ROW_WISE:
+        heavy = spec.name in ("wasserstein", "wasserstein_lil", "sinkhorn")
+        for ci, cfg in enumerate(spec.configs(tier)):
+            for n in (sizes if heavy else sizes[2:4]):
+                yield {"spec": spec.name, "cfg": ci, "train": 0, "size": n, "tier": tier}
+
+
 # ---------------------------------------------------------------- prange orders
 
 def orders(n):
@@ -186,6 +220,9 @@ def subchecks(tier, seed):
         Sub("batchings", "I", g1, run_batch, total=sum(1 for _ in g1()), kind="states",
             describe="every row-wise estimator x configuration x training set x all batches of length <= 3(4) over the item pool + all permutations of 4 items; oracle = single-item transform",
             nontrivial_rule="batch with at least two distinct items", shards=48),
+        Sub("large_batches", "I", (lambda: _large_cases(tier)), run_large_batch, total=sum(1 for _ in _large_cases(tier)), kind="states",
+            describe="batches of 255/256/257/300/513 rows (pool items cycled) for the Wasserstein family - on both sides of the kernels' internal chunk size of 256 rows - and of 257/300 rows for every other row-wise estimator",
+            nontrivial_rule="every case"),
         Sub("prange_orders", "I", g2, run_prange, total=sum(1 for _ in g2()), kind="schedules",
             describe="bpe / wasserstein / sinkhorn / info_weight transforms with numba.prange replaced by every iteration order (24 orders per batch)",
             nontrivial_rule="a prange loop with more than one iteration was actually reordered"),
